@@ -91,6 +91,10 @@ type Step struct {
 	Site     string  `json:"site,omitempty"`  // crash: allocation site the clamped form showed
 	Part     int     `json:"part,omitempty"`  // sweep/probe: which residue class of kinds (mod Parts)
 	Parts    int     `json:"parts,omitempty"` // 0/1 = all kinds
+	// sendcache: block messages served to 1..4 peers through the send cache (C15)
+	NBlk  int    `json:"nblk,omitempty"`
+	Peers int    `json:"peers,omitempty"`
+	Sends []Send `json:"sends,omitempty"`
 }
 
 // Frame is one message a simulated peer sends during a session, with the
@@ -145,6 +149,28 @@ func (Engine) SimplifyStep(raw json.RawMessage) []json.RawMessage {
 		for i := range st.Frames {
 			s := st
 			s.Frames = append(append([]Frame(nil), st.Frames[:i]...), st.Frames[i+1:]...)
+			add(s)
+		}
+	}
+	if n := len(st.Sends); n > 3 {
+		for _, part := range [][]Send{st.Sends[:n/2], st.Sends[n/2:], st.Sends[:n-n/4], st.Sends[n/4:]} {
+			s := st
+			s.Sends = append([]Send(nil), part...)
+			add(s)
+		}
+	}
+	if len(st.Sends) > 1 {
+		for i := range st.Sends {
+			s := st
+			s.Sends = append(append([]Send(nil), st.Sends[:i]...), st.Sends[i+1:]...)
+			add(s)
+		}
+	}
+	for i := range st.Sends {
+		if st.Sends[i].SlowMs != 0 || st.Sends[i].Other || st.Sends[i].Peer != 0 {
+			s := st
+			s.Sends = append([]Send(nil), st.Sends...)
+			s.Sends[i].SlowMs, s.Sends[i].Other, s.Sends[i].Peer = 0, false, 0
 			add(s)
 		}
 	}
